@@ -164,14 +164,14 @@ func Run(ctx *Ctx, sc *Scn) (evs []trace.Ev, note string) {
 	cv.Mode2027 = true
 	evs = append(evs, trace.Ev{"ev": "reset", "rows": rows, "cols": cols, "xw": false, "adv": []string{"sixel", "unicodeCore"}})
 	startup, _ := take()
-	evs = append(evs, cv.Feed(startup)...)
+	evs = append(evs, termPrints(cv.Feed(startup))...)
 	evs = append(evs, trace.Ev{"ev": "ready", "can": map[string]bool{
 		"rgb": vx.CanRGB(), "kittyGraphics": vx.CanKittyGraphics(), "sixel": vx.CanSixel(), "color": vx.CanReportColor(),
 		"fg": vx.CanReportForegroundColor(), "bg": vx.CanReportBackgroundColor(), "graphics": vx.CanDisplayGraphics(),
 		"appid": vx.CanSetAppID(), "unicodeCore": vx.CanUnicodeCore(), "explicitWidth": vx.CanExplicitWidth()}})
-	evs = append(evs, wrapHost(hcv.Feed(host.Startup))...)
+	evs = append(evs, wrapHost(termPrints(hcv.Feed(host.Startup)))...)
 	rgbcap := vx.CanRGB()
-	want := c01.NewRec(cols, rows, cv)
+	want := c01.NewRec(cols, rows, termWidther{cv}) // see width.go
 	type curReq struct {
 		vis             bool
 		row, col, shape int
@@ -182,8 +182,12 @@ func Run(ctx *Ctx, sc *Scn) (evs []trace.Ev, note string) {
 			continue // resizing the emulator under a running application is not part of C12
 		}
 		win := vx.Window()
+		pc, pr := 0, 0 // where the application's own layout of a row stands ("at", "put")
 		for _, op := range f.Ops {
 			switch op.K {
+			case "at", "put", "text":
+				layOp(vx, win, want, op, &pc, &pr)
+				continue
 			case "set":
 				win.SetCell(op.C, op.R, op.Cell.V())
 			case "style":
@@ -209,7 +213,7 @@ func Run(ctx *Ctx, sc *Scn) (evs []trace.Ev, note string) {
 			vx.Render()
 		}
 		fb, fe := take()
-		fevs := cv.Feed(fb)
+		fevs := termPrints(cv.Feed(fb))
 		// a fact about the transport: the clusters of this frame that straddle the end of a read
 		// of the emulator's parser (the parser cannot wait for the rest of a cluster)
 		if cut, n := cutPrints(fb, fe); len(cut) > 0 {
@@ -227,7 +231,7 @@ func Run(ctx *Ctx, sc *Scn) (evs []trace.Ev, note string) {
 			}
 		}
 		evs = append(evs, fevs...)
-		app := want.App(cv, ctx.L)
+		app := termApp(want.App(cv, ctx.L))
 		cr := []int{0, 0, 0, 0}
 		if cur.vis {
 			cr = []int{1, cur.row + 1, cur.col + 1, cur.shape}
@@ -251,7 +255,7 @@ func Run(ctx *Ctx, sc *Scn) (evs []trace.Ev, note string) {
 		host.Vx.HideCursor()
 		vt.Draw(hwin)
 		host.Vx.Render()
-		evs = append(evs, wrapHost(hcv.Feed(host.Con.Take()))...)
+		evs = append(evs, wrapHost(termPrints(hcv.Feed(host.Con.Take())))...)
 		evs = append(evs, trace.Ev{"ev": "hframe", "app": app, "cur": cr, "rgb": rgbcap, "su": false})
 	}
 	done := make(chan struct{})
